@@ -70,3 +70,45 @@ func (w *World) genesisRoundTrip() (res Result) {
 	w2 := &World{A: b, Ctx: bctx, Height: w.Height, SK: b.SettlementKeeper, OK: *b.OracleKeeper, Vals: w.Vals, names: w.names, extraDenoms: map[string]bool{}, rcptSeen: map[string]bool{}}
 	return Result{Line: "ok " + same, Detail: detail, Dump: w2.dumpModules(bctx)}
 }
+
+
+// reimport restarts the two modules from their own export, in place: export, JSON, wipe the two module stores, InitGenesis of both from
+// the document - what a chain restarted from an export does, with every other module's state carried over. The history then continues
+// on the imported state.
+func (w *World) reimport() (res Result) {
+	defer func() {
+		if p := recover(); p != nil {
+			res = Result{Line: "panic", Detail: fmt.Sprint(p), Panic: true}
+		}
+	}()
+	ctx := w.at()
+	cctx, write := ctx.CacheContext()
+	cdc := w.A.AppCodec()
+	sg := settlement.ExportGenesis(cctx, w.SK)
+	og := oracle.ExportGenesis(cctx, w.OK)
+	if err := sg.Validate(); err != nil {
+		return Result{Line: "err export-invalid", Detail: err.Error()}
+	}
+	sj := cdc.MustMarshalJSON(sg)
+	oj := cdc.MustMarshalJSON(og)
+	for _, key := range []string{stypes.StoreKey, otypes.StoreKey} {
+		st := cctx.KVStore(w.A.GetKey(key))
+		it := st.Iterator(nil, nil)
+		var keys [][]byte
+		for ; it.Valid(); it.Next() {
+			keys = append(keys, append([]byte{}, it.Key()...))
+		}
+		it.Close()
+		for _, k := range keys {
+			st.Delete(k)
+		}
+	}
+	var sg2 stypes.GenesisState
+	var og2 otypes.GenesisState
+	cdc.MustUnmarshalJSON(sj, &sg2)
+	cdc.MustUnmarshalJSON(oj, &og2)
+	settlement.InitGenesis(cctx, w.SK, sg2)
+	oracle.InitGenesis(cctx, w.OK, og2)
+	write()
+	return Result{Line: "ok"}
+}
